@@ -508,10 +508,6 @@ def _py_forms():
     return un, bn, cmp_, named
 
 
-class _Probe:
-    pass
-
-
 def _probe_class():
     aob = setup()['aob']
 
